@@ -128,7 +128,6 @@ theorem src_dispatch_eq (cfg : Cfg) (i : Nat) (h : Header) (inMap : Bool) (beh :
       simp [hb, this]
     · have : ((h.payloadLen : Int) > 655360) := by unfold MaxBuf Gen.MaxBufferedPayloadSz at hb; omega
       simp [hb, this]
-  unfold Gen.llrp_Client_passToHandler
   cases hun : unsolicited h.typ <;> cases inMap <;> by_cases hh : h.typ ∈ cfg.handlers <;>
     by_cases hd : cfg.hasDefault = true <;> by_cases hb : h.payloadLen ≤ MaxBuf <;> by_cases hl : s.length < h.payloadLen <;>
     (first
@@ -136,10 +135,10 @@ theorem src_dispatch_eq (cfg : Cfg) (i : Nat) (h : Header) (inMap : Bool) (beh :
            simp [unsolicited] at hun; omega
          first
            | (have hn : ¬ h.payloadLen ≤ s.length := by omega
-              simp [dispEnv, hu', hbig, dispatch, outOf, handlerParty, handlerOf, defaultOf, runHandler, hun, hh, hd, hb, hl, hn,
+              simp [Gen.llrp_Client_passToHandler, dispEnv, hu', hbig, dispatch, outOf, handlerParty, handlerOf, defaultOf, runHandler, hun, hh, hd, hb, hl, hn,
                 ofInts_toInts, guarded, callRaw]; done)
            | (have hn : h.payloadLen ≤ s.length := by omega
-              simp [dispEnv, hu', hbig, dispatch, outOf, handlerParty, handlerOf, defaultOf, runHandler, hun, hh, hd, hb, hl, hn,
+              simp [Gen.llrp_Client_passToHandler, dispEnv, hu', hbig, dispatch, outOf, handlerParty, handlerOf, defaultOf, runHandler, hun, hh, hd, hb, hl, hn,
                 ofInts_toInts, take_len_of_ge, List.length_take, Nat.min_eq_left hn, guarded, callRaw]; done))
       | (have hx : (h.typ = 62 ∨ h.typ = 61) ∨ h.typ = 63 := by simpa [unsolicited] using hun
          obtain ⟨ver, typ, plen, mid⟩ := h
@@ -147,10 +146,10 @@ theorem src_dispatch_eq (cfg : Cfg) (i : Nat) (h : Header) (inMap : Bool) (beh :
          rcases hx with (rfl | rfl) | rfl <;>
          first
            | (have hn : ¬ plen ≤ s.length := by omega
-              simp [dispEnv, hbig, dispatch, outOf, handlerParty, handlerOf, defaultOf, runHandler, unsolicited, hh, hd, hb, hl, hn,
+              simp [Gen.llrp_Client_passToHandler, dispEnv, hbig, dispatch, outOf, handlerParty, handlerOf, defaultOf, runHandler, unsolicited, hh, hd, hb, hl, hn,
                 ofInts_toInts, guarded, callRaw]; done)
            | (have hn : plen ≤ s.length := by omega
-              simp [dispEnv, hbig, dispatch, outOf, handlerParty, handlerOf, defaultOf, runHandler, unsolicited, hh, hd, hb, hl, hn,
+              simp [Gen.llrp_Client_passToHandler, dispEnv, hbig, dispatch, outOf, handlerParty, handlerOf, defaultOf, runHandler, unsolicited, hh, hd, hb, hl, hn,
                 ofInts_toInts, take_len_of_ge, List.length_take, Nat.min_eq_left hn, guarded, callRaw]; done)))
 
 end LLRP.SeqGlue
